@@ -286,7 +286,9 @@ def _impl_effects(case, obs):
         "outcome": obs.get("outcome"),
         "find_called": any(c[0] == "find_system" for c in calls),
         "get_data_called": any(c[0] == "get_data" for c in calls),
-        "file_touched": bool(obs.get("opens")) or bool(obs.get("leaked_body")),
+        # after earlier requests the template engine may serve the template from its cache without opening the file
+        "file_touched": bool(obs.get("opens")) or bool(obs.get("leaked_body")) or (
+            bool(case.get("before")) and bool(obs.get("renders"))),
         "rendered": bool(obs.get("renders")),
         "store_ops": store_ops,
     }
